@@ -142,7 +142,33 @@ pub fn edit_doc(rng: &mut Rng, doc: &[Vec<u8>], pool: Pool, alphabet: usize, max
     let edits = rng.range(0, max_edits);
     let line_pool = if pool == Pool::Repeats { Pool::Lines } else { pool };
     for _ in 0..edits {
-        match rng.below(7) {
+        match rng.below(9) {
+            7 | 8 if !d.is_empty() => {
+                // in-line tweak: replace, insert or delete a few bytes inside one line
+                let at = rng.usize(d.len());
+                let line = &mut d[at];
+                let body = line.len().saturating_sub(1);
+                let pos = rng.usize(body + 1);
+                match rng.below(3) {
+                    0 => {
+                        let w: &[&[u8]] = &[b"x", b"foo", b" ", b"_", b"+", b"\xc3\xa9", b"  "];
+                        let ins = *rng.pick(w);
+                        for (j, c) in ins.iter().enumerate() {
+                            line.insert(pos + j, *c);
+                        }
+                    }
+                    1 if body > 0 => {
+                        let k = (1 + rng.usize(3)).min(body - pos.min(body - 1));
+                        let p = pos.min(body - 1);
+                        line.drain(p..p + k);
+                    }
+                    _ if body > 0 => {
+                        let p = pos.min(body - 1);
+                        line[p] = *rng.pick(&[b'x', b' ', b'_', b'1', b'(']);
+                    }
+                    _ => {}
+                }
+            }
             0 | 1 => {
                 let at = rng.usize(d.len() + 1);
                 let l = if pool == Pool::Repeats && rng.chance(1, 2) {
